@@ -32,7 +32,7 @@ esac
 {
 cmake -G Ninja -S "$DIR/cfemm" -B "$DIR/_b" -DCMAKE_BUILD_TYPE=$BT \
       -DCMAKE_CXX_FLAGS="-Wno-error -w" -DEXTRA_CMAKE_CXX_FLAGS="$CXXF" \
-      -DCMAKE_EXE_LINKER_FLAGS="$LDF" -DCMAKE_C_FLAGS="-w" \
+      -DCMAKE_EXE_LINKER_FLAGS="$LDF" -DCMAKE_C_FLAGS="-w" -DENABLE_HAIRTRIGGER_TESTS=ON \
   && cmake --build "$DIR/_b" -j"${XFEMM_VERIF_JOBS:-16}"
 } >"$DIR/build.log" 2>&1 || { echo "BUILD FAILED, see $DIR/build.log" >&2; tail -30 "$DIR/build.log" >&2; exit 3; }
 touch "$DIR/.ok"
